@@ -406,6 +406,11 @@ func C19(c *core.Ctx) {
 	if !c.Quick() {
 		maxN = 4
 	}
+	if !c.Quick() {
+		if !c.CoverageGuard("mc_fanout_action_coverage", core.TLCOpts{Module: "MC_Fanout", CfgText: "SPECIFICATION Spec\nCONSTANTS MinN = 0\n MaxN = 3\nINVARIANTS CalledOnce Results FirstError AllJoined NoRace\nCHECK_DEADLOCK TRUE\n", Timeout: 30 * time.Minute, Name: "fanoutcov"}) {
+			return
+		}
+	}
 	r, err := c.RunTLC(core.TLCOpts{Module: "MC_Fanout", CfgText: fmt.Sprintf("SPECIFICATION Spec\nCONSTANTS MinN = 0\n MaxN = %d\nINVARIANTS CalledOnce Results FirstError AllJoined NoRace\nPROPERTY Live\nCHECK_DEADLOCK TRUE\n", maxN), Timeout: 30 * time.Minute, Name: "fanout"})
 	if err != nil {
 		c.Inconclusive("Fanout model checking failed: " + err.Error())
